@@ -110,4 +110,30 @@ Judge(t, got) ==
                         \E y \in 1..Len(exp) : exp[y].id = exp[x].pid /\ once(y) /\
                              PosIn(got, exp[y].id) > PosIn(got, exp[x].id)}},
       unexpected |-> {got[j].id : j \in {x \in 1..Len(got) : got[x].id \notin Ids(exp)}}]
+
+----------------------------------------------------------------------------
+(* C12: placeholders are numbered in textual order = the order in which Expected visits Parameter nodes *)
+ParamOrder(t) == LET e == Expected(t) ps == SelectSeq(e, LAMBDA v : v.k = "Parameter") IN [i \in 1..Len(ps) |-> ps[i].id]
+
+RECURSIVE Chain(_, _)
+Chain(exp, id) == IF id < 0 THEN <<>> ELSE <<id>> \o Chain(exp, exp[PosIn(exp, id)].pid)
+\* for two nodes: <<kind of their lowest common ancestor, slot leading to the first, slot leading to the second>>
+Fork(exp, a, b) ==
+  LET ca == Chain(exp, a) cb == Chain(exp, b)
+      ia == CHOOSE i \in 1..Len(ca) : (\E j \in 1..Len(cb) : cb[j] = ca[i]) /\ \A m \in 1..(i - 1) : \A j \in 1..Len(cb) : cb[j] # ca[m]
+      ib == CHOOSE j \in 1..Len(cb) : cb[j] = ca[ia]
+      ka == IF ia = 1 THEN a ELSE ca[ia - 1]
+      kb == IF ib = 1 THEN b ELSE cb[ib - 1]
+  IN <<exp[PosIn(exp, ca[ia])].k, exp[PosIn(exp, ka)].slot, exp[PosIn(exp, kb)].slot>>
+
+\* got = ids of the Parameter nodes in the order the library numbers them
+ParamJudge(t, got) ==
+  LET exp == Expected(t) want == ParamOrder(t)
+      inGot(id) == \E i \in 1..Len(got) : got[i] = id
+      gpos(id) == CHOOSE i \in 1..Len(got) : got[i] = id
+  IN [missing |-> {<<exp[PosIn(exp, want[i])].pk, exp[PosIn(exp, want[i])].slot>> : i \in {j \in 1..Len(want) : ~inGot(want[j])}},
+      twice   |-> {got[i] : i \in {j \in 1..Len(got) : \E m \in 1..Len(got) : m # j /\ got[m] = got[j]}},
+      order   |-> {Fork(exp, want[p[1]], want[p[2]]) :
+                     p \in {q \in (1..Len(want)) \X (1..Len(want)) :
+                              q[1] < q[2] /\ inGot(want[q[1]]) /\ inGot(want[q[2]]) /\ gpos(want[q[1]]) > gpos(want[q[2]])}}]
 =============================================================================
